@@ -1,6 +1,7 @@
 """C17 -- failed placements are rolled back completely; accepted ones never move."""
 from vlib.framework import PUnit, LUnit, BUnit
 from contracts import random_walk as W
+from contracts import compose as CS
 from bounded import b_build
 
 
@@ -10,6 +11,7 @@ def build(tier, seed):
         PUnit("random-walk-loop", [W.RANDOM_WALK], W.REG),
         LUnit("cnt-monotone", W.lemma_cnt_monotone),
         PUnit("handle-random-walk", [W.HANDLE_WALK], W.REGH),
+        PUnit("compose-system", CS.CONTRACTS, CS.REG),
     ] + [u for u in b_build.UNITS if u.name == "c17-schedules"] + [
     ]
     return {"units": units, "level": "other", "notes": "pyvc"}
